@@ -49,6 +49,32 @@ def nxt(x, k=1):
     return x
 
 
+def canon(d):
+    """order-insensitive form of a dump: the order inside an occupant / surplus list and the order of the surplus
+    dictionary are implementation detail (nothing in the property depends on them), so both sides are compared as
+    multisets per cell"""
+    if not d.startswith("O="):
+        return d
+    try:
+        o, s, y, a = d.split(" ")
+        def lst(x):
+            return ",".join(sorted(x.split(","), key=int)) if x else ""
+        def entries(x):
+            es = [e.split(":") for e in x.split(";")] if x else []
+            return ";".join("%s:%s" % (c, lst(l)) for c, l in sorted(es, key=lambda e: int(e[0])))
+        s_ = "S=?" if s == "S=?" else "S=" + entries(s[2:])
+        return "O=%s %s Y=%s %s" % (entries(o[2:]), s_, lst(y[2:]), a)
+    except Exception:
+        return d
+
+
+def same(impl, model):
+    a, b = canon(impl), canon(model)
+    if "S=?" in a:          # the private surplus dictionary is not available: compare the public answers only
+        b = " ".join("S=?" if t.startswith("S=") else t for t in b.split(" "))
+    return a == b
+
+
 # ----------------------------------------------------------------------------------------------------------------------
 # (a) unit level
 # ----------------------------------------------------------------------------------------------------------------------
@@ -316,6 +342,8 @@ def unit_level(ctx):
                         ctx.fail("unit:update-raised:" + ans[4:], dict(case, steps=list(case["steps"])),
                                  "update raised on a history that satisfies the premises")
                     break
+                if extra is not None:
+                    break          # (the unknown identifier was accepted: nothing sensible can follow)
                 if nrel:
                     cur, cur_cell = new, ncell
                 else:
@@ -332,7 +360,7 @@ def unit_level(ctx):
     replies = ctx.model("occ", lines)
     nd = 0
     for line, (case, label, ans, valid), rep in zip(lines, checks, replies):
-        if rep != ans:
+        if not same(ans, rep):
             nd += 1
             ctx.disagree("occ." + ("initialize" if label == "initialize" else "update"),
                          dict(case, request=line), ans, rep)
@@ -410,6 +438,15 @@ def boundary_level(ctx):
                                  % (got.identifier, want.identifier))
                     if any(npos[e] != pos[e] for e in range(dim) if e != d):
                         ctx.fail("boundary:other-coordinate-moved", case, "a coordinate without velocity changed")
+                    # no cell-boundary event before the event time, so half way the unit must still be in its cell
+                    # (skipped when the separation is within rounding distance of zero)
+                    tt = t.quotient + t.remainder
+                    if abs(v) * tt > 1e-9 * L and cps[d] > 1:
+                        mid = list(pos)
+                        mid[d] = (pos[d] + v * (tt / 2)) % L
+                        if cells.position_to_cell(mid) is not c:
+                            ctx.fail("boundary:leaves-cell-before-event:" + ("pos" if v > 0 else "neg"), case,
+                                     "half way to the scheduled cell-boundary event the unit is already outside its cell")
                     if not (t.quotient + t.remainder >= 0.0):
                         ctx.fail("boundary:negative-time", case, "time to the boundary is negative")
                 except Exception as e:   # noqa
@@ -529,7 +566,7 @@ def run_level(ctx):
             sess = (m[0], m[1]["seed"])
             if m[3] == "initialize":
                 bad_sessions.discard(sess)
-            if d != rep and sess not in bad_sessions:
+            if not same(d, rep) and sess not in bad_sessions:
                 bad_sessions.add(sess)      # after the first difference the two states differ anyway
                 ctx.disagree("occ.run-replay (%s)" % ("initialize" if m[3] == "initialize" else "update"),
                              {"layer": "run", "config": m[0], "overrides": m[1]["overrides"], "seed": m[1]["seed"],
